@@ -24,3 +24,81 @@ package models
 //@ func (*SortedOperations).Size
 //@   requires o != nil
 //@   ensures result == len(o.Create) + len(o.Recover) + len(o.Deactivate) + len(o.Update)
+
+// ---- C13: positional layout of the batch files (writer side) ----
+//
+//@ spec mNonNil(ops []*model.Operation) bool { forall q int :: 0 <= q && q < len(ops) ==> ops[q] != nil }
+//
+//@ func getOperationReferences
+//@   requires mNonNil(ops)
+//@   loop 1
+//@     invariant mNonNil(ops) && len(result) == _k
+//@     invariant forall q int :: 0 <= q && q < len(result) ==> result[q].DidSuffix == ops[q].UniqueSuffix && result[q].RevealValue == ops[q].RevealValue
+//@   ensures len(result) == len(ops)
+//@   ensures forall q int :: 0 <= q && q < len(result) ==> result[q].DidSuffix == ops[q].UniqueSuffix && result[q].RevealValue == ops[q].RevealValue
+//
+//@ func getSignedData
+//@   requires mNonNil(ops)
+//@   loop 1
+//@     invariant mNonNil(ops) && len(result) == _k
+//@     invariant forall q int :: 0 <= q && q < len(result) ==> result[q] == ops[q].SignedData
+//@   ensures len(result) == len(ops)
+//@   ensures forall q int :: 0 <= q && q < len(result) ==> result[q] == ops[q].SignedData
+//
+//@ func assembleCreateReferences
+//@   requires mNonNil(createOps)
+//@   loop 1
+//@     invariant mNonNil(createOps) && len(result) == _k
+//@     invariant forall q int :: 0 <= q && q < len(result) ==> result[q].SuffixData == createOps[q].SuffixData
+//@   ensures len(result) == len(createOps)
+//@   ensures forall q int :: 0 <= q && q < len(result) ==> result[q].SuffixData == createOps[q].SuffixData
+//
+//@ func getDeltas
+//@   requires mNonNil(ops)
+//@   loop 1
+//@     invariant mNonNil(ops) && len(deltas) == _k
+//@     invariant forall q int :: 0 <= q && q < len(deltas) ==> deltas[q] == ops[q].Delta
+//@   ensures len(result) == len(ops)
+//@   ensures forall q int :: 0 <= q && q < len(result) ==> result[q] == ops[q].Delta
+//
+//@ func getChunks
+//@   loop 1
+//@     invariant len(chunks) == _k
+//@     invariant forall q int :: 0 <= q && q < len(chunks) ==> chunks[q].ChunkFileURI == uris[q]
+//@   ensures len(result) == len(uris)
+//@   ensures forall q int :: 0 <= q && q < len(result) ==> result[q].ChunkFileURI == uris[q]
+//
+// chunk file: deltas of creates, then recovers, then updates, each in order
+//@ func CreateChunkFile
+//@   requires ops != nil && mNonNil(ops.Create) && mNonNil(ops.Recover) && mNonNil(ops.Update)
+//@   ensures result != nil && len(result.Deltas) == len(ops.Create) + len(ops.Recover) + len(ops.Update)
+//@   ensures forall q int :: 0 <= q && q < len(ops.Create) ==> result.Deltas[q] == ops.Create[q].Delta
+//@   ensures forall q int :: 0 <= q && q < len(ops.Recover) ==> result.Deltas[len(ops.Create) + q] == ops.Recover[q].Delta
+//@   ensures forall q int :: 0 <= q && q < len(ops.Update) ==> result.Deltas[len(ops.Create) + len(ops.Recover) + q] == ops.Update[q].Delta
+//
+//@ func CreateCoreProofFile
+//@   requires mNonNil(recoverOps) && mNonNil(deactivateOps)
+//@   ensures result != nil && len(result.Operations.Recover) == len(recoverOps) && len(result.Operations.Deactivate) == len(deactivateOps)
+//@   ensures forall q int :: 0 <= q && q < len(recoverOps) ==> result.Operations.Recover[q] == recoverOps[q].SignedData
+//@   ensures forall q int :: 0 <= q && q < len(deactivateOps) ==> result.Operations.Deactivate[q] == deactivateOps[q].SignedData
+//
+//@ func CreateProvisionalProofFile
+//@   requires mNonNil(updateOps)
+//@   ensures result != nil && len(result.Operations.Update) == len(updateOps)
+//@   ensures forall q int :: 0 <= q && q < len(updateOps) ==> result.Operations.Update[q] == updateOps[q].SignedData
+//
+//@ func CreateProvisionalIndexFile
+//@   requires mNonNil(updateOps)
+//@   ensures result != nil && result.ProvisionalProofFileURI == provisionalProofURI && len(result.Chunks) == len(chunkURIs)
+//@   ensures forall q int :: 0 <= q && q < len(chunkURIs) ==> result.Chunks[q].ChunkFileURI == chunkURIs[q]
+//@   ensures len(updateOps) == 0 ==> result.Operations == nil
+//@   ensures len(updateOps) > 0 ==> result.Operations != nil && len(result.Operations.Update) == len(updateOps) && (forall q int :: 0 <= q && q < len(updateOps) ==> result.Operations.Update[q].DidSuffix == updateOps[q].UniqueSuffix && result.Operations.Update[q].RevealValue == updateOps[q].RevealValue)
+//
+//@ func CreateCoreIndexFile
+//@   requires ops != nil && mNonNil(ops.Create) && mNonNil(ops.Recover) && mNonNil(ops.Deactivate)
+//@   ensures result != nil && result.CoreProofFileURI == coreProofURI && result.ProvisionalIndexFileURI == provisionalIndexURI
+//@   ensures len(ops.Create) + len(ops.Recover) + len(ops.Deactivate) == 0 ==> result.Operations == nil
+//@   ensures len(ops.Create) + len(ops.Recover) + len(ops.Deactivate) > 0 ==> result.Operations != nil && len(result.Operations.Create) == len(ops.Create) && len(result.Operations.Recover) == len(ops.Recover) && len(result.Operations.Deactivate) == len(ops.Deactivate)
+//@   ensures len(ops.Create) + len(ops.Recover) + len(ops.Deactivate) > 0 ==> (forall q int :: 0 <= q && q < len(ops.Create) ==> result.Operations.Create[q].SuffixData == ops.Create[q].SuffixData)
+//@   ensures len(ops.Create) + len(ops.Recover) + len(ops.Deactivate) > 0 ==> (forall q int :: 0 <= q && q < len(ops.Recover) ==> result.Operations.Recover[q].DidSuffix == ops.Recover[q].UniqueSuffix && result.Operations.Recover[q].RevealValue == ops.Recover[q].RevealValue)
+//@   ensures len(ops.Create) + len(ops.Recover) + len(ops.Deactivate) > 0 ==> (forall q int :: 0 <= q && q < len(ops.Deactivate) ==> result.Operations.Deactivate[q].DidSuffix == ops.Deactivate[q].UniqueSuffix && result.Operations.Deactivate[q].RevealValue == ops.Deactivate[q].RevealValue)
